@@ -301,3 +301,46 @@ func storesIntoCell(cell ssa.Value) []*ssa.Store {
 	}
 	return out
 }
+
+// backwardSliceIP is backwardSlice that additionally descends into the return values of resolved
+// module callees (static functions and local closures), depth-limited; call arguments are followed too.
+func backwardSliceIP(v ssa.Value, stop func(ssa.Value) bool, depth int) map[ssa.Value]bool {
+	seen := map[ssa.Value]bool{}
+	var rec func(v ssa.Value, d int)
+	through := func(c *ssa.CallCommon) bool { return true }
+	rec = func(v ssa.Value, d int) {
+		for x := range backwardSlice(v, through, func(y ssa.Value) bool {
+			if stop != nil && stop(y) {
+				return true
+			}
+			return false
+		}) {
+			if seen[x] {
+				continue
+			}
+			seen[x] = true
+			if stop != nil && stop(x) {
+				continue
+			}
+			call, ok := x.(*ssa.Call)
+			if !ok || d <= 0 {
+				continue
+			}
+			fs, _ := calleesOf(call.Common())
+			for _, f := range fs {
+				if f.Pkg == nil || !isModulePkg(f.Pkg.Pkg) || f.Blocks == nil {
+					continue
+				}
+				for _, b := range f.Blocks {
+					if ret, ok := b.Instrs[len(b.Instrs)-1].(*ssa.Return); ok {
+						for _, rv := range ret.Results {
+							rec(rv, d-1)
+						}
+					}
+				}
+			}
+		}
+	}
+	rec(v, depth)
+	return seen
+}
